@@ -1,4 +1,4 @@
 From Coq Require Import Extraction ExtrOcamlBasic.
 From Elvis Require Import Model.Base Model.SocketRecv.
 Extraction Language OCaml.
-Extraction "../ocaml/gen/sockrecv_model.ml" recv recv_msg push accept_replay listen demux notify accept lookup update run validate_stream validate_dgram outgoing_text tag fifo arrivals pending.
+Extraction "../ocaml/gen/sockrecv_model.ml" recv recv_msg push accept_replay listen demux notify accept lookup update run validate_stream validate_stream_unordered validate_dgram outgoing_text tag fifo arrivals pending.
